@@ -139,6 +139,23 @@ def acceptor(hist, io):
                 if stored and len(a) == 1 and a[0]['store'] == now and a[0]['acc'] != now and m != 'incr':
                     return 'a write at time %d did not make the item the most recently used one (access time stays %d): %s' % (
                         now, a[0]['acc'], line[:100])
+            # incr / decr of an existing, live item stores a new value AND uses the item: it must move to the young end of
+            # every policy's order (store time for least-recently-stored, access time for LRU, one more use for LFU)
+            if j + 1 < len(lines) and lines[j + 1][0] == 'state' and prev is not None and m == 'incr' and pol in ('lrs', 'lru', 'lfu'):
+                res = ans.split(' | ')[0][4:]
+                wk = f.get('k', '')
+                dbk = 'y' + wk[1:] if wk[:1] == 'o' else wk
+                b = [r for r in prev if r['key'] == dbk]
+                a = [r for r in parse_rows(lines[j + 1][1]) if r['key'] == dbk]
+                now = int(f.get('now', 0))
+                if res[:1] == 'i' and len(a) == 1 and len(b) == 1 and a[0]['rowid'] == b[0]['rowid'] and not (b[0]['exp'] is not None and b[0]['exp'] <= now):
+                    if pol == 'lrs' and a[0]['store'] != now:
+                        return 'incr of an existing item at time %d left its store time at %d (least-recently-stored orders by it): %s' % (now, a[0]['store'], line[:100])
+                    if pol == 'lru' and a[0]['acc'] != now:
+                        return 'incr of an existing item at time %d left its access time at %d (least-recently-used orders by it): %s' % (now, a[0]['acc'], line[:100])
+                    if pol == 'lfu' and a[0]['accn'] != b[0]['accn'] + 1:
+                        return 'incr of an existing item was not counted as a use (access count %d -> %d, least-frequently-used orders by it): %s' % (
+                            b[0]['accn'], a[0]['accn'], line[:100])
             # a read that finds the item refreshes what the policy orders by (independently of the
             # table's own bookkeeping being used above): access time for LRU, access count for LFU
             if j + 1 < len(lines) and lines[j + 1][0] == 'state' and prev is not None and m in ('get', 'getitem') \
@@ -160,6 +177,39 @@ def acceptor(hist, io):
         if line == 'state':
             prev = parse_rows(ans)
     return refdict.accept(hist, io, scope=SCOPE)
+
+
+def cull_boundary_probe():
+    """cull() "continues until the cache is no larger than its size limit": with the limit set EXACTLY to
+    the current volume it removes nothing and returns 0; one byte lower it removes something and ends at or
+    below the limit (the model has the same boundary: CullLoss.started / stopped)"""
+    import os
+    import shutil
+    import tempfile
+    import diskcache
+    root = os.environ.get('VERIF_SCRATCH') or tempfile.gettempdir()
+    bad = []
+    for policy in ('least-recently-stored', 'least-recently-used', 'least-frequently-used'):
+        d = tempfile.mkdtemp(prefix='cullb-', dir=root)
+        try:
+            c = diskcache.Cache(d, disk_min_file_size=8, eviction_policy=policy, cull_limit=0)
+            for i in range(25):
+                c.set('k%d' % i, b'V' * 3000)
+            v = c.volume()
+            c.reset('size_limit', v)
+            n0, left0 = c.cull(), len(c)
+            if (n0, left0) != (0, 25):
+                bad.append('%s: cull() with size_limit == volume (%d) removed %d items (%d left); the cache was no larger than its limit' % (policy, v, n0, left0))
+            c.reset('size_limit', v - 1)
+            n1 = c.cull()
+            if n1 < 1 or n1 != 25 - len(c) or (len(c) and c.volume() > v - 1):
+                bad.append('%s: cull() with size_limit == volume - 1 returned %d, %d items left, volume %d' % (policy, n1, len(c), c.volume()))
+            c.close()
+        except Exception as e:  # noqa
+            bad.append('%s: cull-boundary probe raised %s: %s' % (policy, type(e).__name__, str(e)[:100]))
+        finally:
+            shutil.rmtree(d, ignore_errors=True)
+    return bad
 
 
 def lfu_witness_probe():
@@ -195,6 +245,8 @@ def run(tier, seed, rng, known, replay):
     for h in hists:
         h['state_every'] = 1
     r = base.check_histories('C09', hists, ('result', 'state'), acceptor=acceptor, known=known)
+    for v_ in cull_boundary_probe()[:2]:
+        r['violations'].append({'replay': {'property': 'C09', 'kind': 'cull-boundary-probe', 'acceptor': v_}, 'found_input': True, 'what': v_})
     for v_ in lfu_witness_probe():
         r['violations'].append({'replay': {'property': 'C09', 'kind': 'correspondence', 'model_part': 'DC.Cache.cullW (witness set_evicts_itself_lfu)', 'acceptor': v_},
                                 'found_input': False, 'what': v_})
